@@ -96,7 +96,10 @@ class ResolverTask:
 
     def cache_key(self):
         from pyvc import driver
-        return "resolver|%s|%s|%s" % (self.name, self.timeout_ms, driver.dep_hash(self.root, modules=("validators", "_utils")))
+        mods = ("validators", "_utils")
+        if self.which == "ref_keyword":
+            mods += ("_validators", "_legacy_validators", "exceptions")      # executes the `$ref` keyword function
+        return "resolver|%s|%s|%s" % (self.name, self.timeout_ms, driver.dep_hash(self.root, modules=mods))
 
     def run(self):
         t0 = time.time()
